@@ -9,8 +9,16 @@
      C. the model side: where the (at most one) message of the event goes, for every hop
         (udp_hop_outs, tcp_hop_outs, backend_sends, choice_udp).
      D. agree (judge bookkeeping vs model state), C03_judge_bridge_udp (process_message level),
-        C03_judge_bridge_step (proxy_step level), agree_step_udp (preservation for datagrams).
-     E. a concrete run. *)
+        C03_judge_bridge_step (proxy_step level), C03_judge_bridge_step_no_tcp.
+     E. concrete runs on the configuration of proofs/C01.v: Route next hop over udp, backend.
+     F. agree_step_udp: the agreement is kept by any datagram (pool members, dialled connections).
+     G. concrete run with a TCP next hop (dial + bytes on the connection) and the bookkeeping after it.
+
+   What is NOT proved (see the comment at C03_judge_bridge_udp): for a TCP next hop the bridge keeps one
+   premise on the observation side: when the model writes nothing on a connection, the judge must see a
+   refusing peer (no listener, no open connection there).  The model can stay silent towards a listening
+   peer (a cached connection that was closed: dial, no bytes; a request with a transaction id towards the
+   source port of an accepted connection), so that premise does not follow from the agreement alone. *)
 From Coq Require Import List Ascii String ZArith NArith Bool Arith Lia.
 From Model Require Import Bytes BytesLemmas Wire Uri Hdr Message Msg Rx Glob StaticRoute RoundRobin Pins
      Proxy RunProxy SpecProxy SpecC14.
@@ -206,8 +214,6 @@ Proof.
       split; [apply (good_hdr_wf _ _ _ G1); right; left; reflexivity|]. split; reflexivity.
   - exists a. eexists. split; [exact Wa|]. split; reflexivity.
 Qed.
-
-Definition udp_from := udp_transport.
 
 (* (3) the service name / the listener's own address *)
 Lemma service_agree c lc m meth au ver : wf_addr au = true -> m_start m = SReq meth (embed_addr au) ver ->
@@ -747,6 +753,32 @@ Proof.
   cbn [x_outs app] in O. injection H as _ <-. rewrite O in *. apply K. exact Htcp.
 Qed.
 
+(* ... with conditions on the input, the configuration and the two states only, when the hop the judge reads in
+   the request is not a TCP destination (Route / static route over udp, unsupported transport, unresolvable
+   host, backend, nothing) *)
+Corollary C03_judge_bridge_step_no_tcp :
+  forall pc stj fx now br st st' outs li lc p src sport data closed jin m rest,
+  nth_opt (c_listens (pc_cfg pc)) li = Some lc ->
+  j_read data = Some jin -> parse_message data = Ok (m, rest) ->
+  route_domain_in (RS m) -> to_domain m -> ruri_domain jin ->
+  hosts_ok (pc_cfg pc) -> routes_ok (pc_cfg pc) -> (0 < lc_udp lc)%Z ->
+  fx_udp_via_listener fx = true -> fx_stale_pin fx = true ->
+  agree stj st -> nth_p (st_proxies st) li = Some p ->
+  (forall l, nth_opt (js_backends stj) li = Some l -> Forall (backend_ok (pc_udp_endpoints pc)) l) ->
+  (forall ip port, C02.udp_slot_ok ip port p) -> C02.tcp_slot_ok p ->
+  fits_datagram (write_message (step_would_send fx (pc_cfg pc) now br st li lc p src sport m)) = true ->
+  proxy_step fx (pc_cfg pc) now br st (EvUdp li src sport data) = Ok (st', outs) ->
+  (forall q ip port, j_request jin = Some q -> j_choose (pc_cfg pc) lc false q <> HHop (JTcp ip port)) ->
+  judge_C03_event pc stj (EvUdp li src sport data)
+    (map labelled (filter (visible (pc_udp_endpoints pc)) outs)) closed = 0%nat.
+Proof.
+  intros pc stj fx now br st st' outs li lc p src sport data closed jin m rest
+         N J P Dom DT DR HO RO Hudp Hfx1 Hfx2 AG Np BO Hslot Htso Hfit H NT.
+  apply (C03_judge_bridge_step pc stj fx now br st st' outs li lc p src sport data closed jin m rest
+           N J P Dom DT DR HO RO Hudp Hfx1 Hfx2 AG Np BO Hslot Htso Hfit H).
+  intros q ip port Q JC _. exfalso. exact (NT q ip port Q JC).
+Qed.
+
 (* ================================================================== E. concrete instances *)
 Lemma first_glob_in t h it : first_glob t h = Some it -> exists d, In (d, it) t.
 Proof.
@@ -1252,6 +1284,21 @@ Lemma dials_readable_fst outs :
                    | _ => True end) (map fst outs) -> dials_readable outs.
 Proof. unfold dials_readable. rewrite Forall_map. intros H. exact H. Qed.
 
+(* preservation instantiated on the case, for any datagram *)
+Lemma b3_agree_step d :
+  is_ok (b3_step d) = true -> dials_readable (b3_outs d) ->
+  agree (js_step_c (js_init C01.ex_cfg) (EvUdp 0 b3_src 5070%Z d)
+           (map labelled (filter (visible (pc_udp_endpoints b3_pc)) (b3_outs d))) [])
+        (b3_state d).
+Proof.
+  intros OK DRd.
+  assert (Hrun : b3_step d = Ok (b3_state d, b3_outs d)).
+  { unfold b3_state, b3_outs. destruct (b3_step d) as [[s o]| |]; [reflexivity|discriminate OK|discriminate OK]. }
+  unfold b3_step in Hrun.
+  exact (agree_step_udp b3_pc (js_init C01.ex_cfg) all_fixed 1000%Z (branch_of 0) C01.ex_st (b3_state d)
+           (b3_outs d) 0%nat b3_src 5070%Z d b3_agree_init Hrun DRd).
+Qed.
+
 Example b3_tcp_agree_after :
   js_conns (js_step_c (js_init C01.ex_cfg) (EvUdp 0 b3_src 5070%Z b3_req_tcp)
               (map labelled (filter (visible (pc_udp_endpoints b3_pc)) (b3_outs b3_req_tcp))) [])
@@ -1260,12 +1307,7 @@ Example b3_tcp_agree_after :
            (map labelled (filter (visible (pc_udp_endpoints b3_pc)) (b3_outs b3_req_tcp))) [])
         (b3_state b3_req_tcp).
 Proof.
-  split; [vm_compute; reflexivity|].
-  assert (Hrun : b3_step b3_req_tcp = Ok (b3_state b3_req_tcp, b3_outs b3_req_tcp)).
-  { unfold b3_state, b3_outs. destruct (b3_step b3_req_tcp) as [[s o]| |] eqn:E;
-      [reflexivity|vm_compute in E; discriminate E|vm_compute in E; discriminate E]. }
-  apply (agree_step_udp b3_pc (js_init C01.ex_cfg) all_fixed 1000%Z (branch_of 0) C01.ex_st (b3_state b3_req_tcp)
-           (b3_outs b3_req_tcp) 0%nat b3_src 5070%Z b3_req_tcp b3_agree_init Hrun).
+  split; [vm_compute; reflexivity|]. apply b3_agree_step; [vm_compute; reflexivity|].
   apply dials_readable_fst.
   assert (E : map fst (b3_outs b3_req_tcp) = [DDial (s2b "10.0.0.7") 5080%Z 0%nat; DConn 0%nat]) by (vm_compute; reflexivity).
   rewrite E. constructor; [unfold int_min, int_max; cbn [Z.of_nat]; lia|]. constructor; [exact I|constructor].
@@ -1279,3 +1321,4 @@ Print Assumptions b3_backend_accepted.
 Print Assumptions agree_step_udp.
 Print Assumptions b3_tcp_accepted.
 Print Assumptions b3_tcp_agree_after.
+Print Assumptions C03_judge_bridge_step_no_tcp.
